@@ -3188,6 +3188,7 @@ T("C13", "twin-record-renamed", JDS,
 # rule is a mutant of the borrowing rule, every twin of the lender a twin
 from .selftest import VARIANTS as _V, Variant as _Var
 for _lp, _lr, _bp, _br in (("C10", "R10.5", "C11", "R11.10"),
+                           ("C10", "R10.5", "C12", "R12.10"),
                            ("C11", "R11.1", "C15", "R15.9")):
     _have = {v.vid for v in _V if v.prop == _bp}
     for _v in list(_V):
@@ -3206,3 +3207,42 @@ M("C15", "no-rename-on-the-no-ingest-arm", "otel_to_pv/otel_to_pv.py",
   "    data_holder.update_job_names_by_root_span()\n",
   "    if ingest_data:\n        data_holder.update_job_names_by_root_span()\n",
   "R15.9", "a store left half-processed by an aborted run is never renamed by later --no-ingest runs (seed C15-y)")
+
+# ---- wave z -------------------------------------------------------------------
+M("C04", "model-save-failure-logged", EV,
+  "    with open(file_path, \"w\") as file:\n        json.dump(events_input_file_model.model_dump(), file, indent=4)\n",
+  "    try:\n        with open(file_path, \"w\") as file:\n            json.dump(events_input_file_model.model_dump(), file, indent=4)\n    except OSError as e:\n        print(f\"Error saving model file.{e}\")\n",
+  "R4.10", "a model that cannot be written is logged and the run goes on: the stale file is what the next run loads (seed C04-z)")
+T("C04", "twin-model-save-failure-rewrapped", EV,
+  "    with open(file_path, \"w\") as file:\n        json.dump(events_input_file_model.model_dump(), file, indent=4)\n",
+  "    try:\n        with open(file_path, \"w\") as file:\n            json.dump(events_input_file_model.model_dump(), file, indent=4)\n    except OSError as e:\n        raise RuntimeError(f\"could not save {file_path}\") from e\n",
+  "the failure is re-raised with context")
+M("C09", "known-hashes-not-inserted-again", SQL,
+  "    insert_job_hashes(job_ids_hashes, sql_data_holder)\n",
+  "    seen = set()\n    job_ids_hashes = [\n        h for h in job_ids_hashes\n        if not (h.job_hash in seen or seen.add(h.job_hash))\n    ]\n    insert_job_hashes(job_ids_hashes, sql_data_holder)\n",
+  "R9.8", "rows are filtered by hash alone before the insert: another workflow's representative is lost (seed C09-z)")
+M("C09", "hash-insert-conditional", SQL,
+  "    insert_job_hashes(job_ids_hashes, sql_data_holder)\n",
+  "    if len(job_ids_hashes) > 1:\n        insert_job_hashes(job_ids_hashes, sql_data_holder)\n",
+  "R9.8", "a page with a single root is not inserted")
+M("C10", "insert-committed-in-chunks", SQL,
+  "                session.add_all(objects)\n                session.commit()\n",
+  "                for start in range(0, len(objects), 1000):\n                    session.add_all(objects[start:start + 1000])\n                    session.commit()\n",
+  "R10.3", "a batch is committed in chunks: a duplicate in a later chunk leaves earlier chunks stored, the filter drops them with their links (seed C10-z)")
+M("C13", "bare-string-zipped", JCFG,
+  "        if isinstance(optional_list, str):\n            optional_list = [optional_list]\n        updated_optional_list",
+  "        updated_optional_list",
+  "R13.11", "a bare-string key_value / value_paths is zipped character by character (seed C13-z)")
+M("C13", "bare-string-key-paths-iterated", JCFG,
+  "        if isinstance(key_paths, str):\n            key_paths = [key_paths]\n",
+  "",
+  "R13.11", "a bare-string key_paths becomes one alternative per character")
+T("C13", "twin-string-case-as-else", JCFG,
+  "        if isinstance(key_paths, str):\n            key_paths = [key_paths]\n        updated_key_paths: list[tuple[str, ...]] = []\n        for key_path in key_paths:\n            updated_key_paths.append(\n                JQFieldSpec.field_spec_key_path_to_jq_key_path(key_path)\n            )\n        return updated_key_paths\n",
+  "        if isinstance(key_paths, str):\n            return [JQFieldSpec.field_spec_key_path_to_jq_key_path(key_paths)]\n        updated_key_paths: list[tuple[str, ...]] = []\n        for key_path in key_paths:\n            updated_key_paths.append(\n                JQFieldSpec.field_spec_key_path_to_jq_key_path(key_path)\n            )\n        return updated_key_paths\n",
+  "guard clause that leaves for a bare string instead of the wrap")
+for _P, _R in (("C16", "R16.4"), ("C08", "R8.9")):
+    M(_P, "one-entry-memo-updated-in-two-steps", P2T,
+      "    dt = datetime.fromisoformat(iso_timestamp.rstrip(\"Z\")).replace(\n        tzinfo=timezone.utc\n    )\n    # Convert the whole seconds of the datetime object to a Unix timestamp\n    unix_timestamp = int(dt.replace(microsecond=0).timestamp())\n",
+      "    global _LAST_TEXT, _LAST_SECONDS\n    second_text = iso_timestamp.partition(\".\")[0]\n    changed = second_text != _LAST_TEXT\n    _LAST_TEXT = second_text\n    dt = datetime.fromisoformat(iso_timestamp.rstrip(\"Z\")).replace(\n        tzinfo=timezone.utc\n    )\n    if changed:\n        _LAST_SECONDS = int(dt.replace(microsecond=0).timestamp())\n    unix_timestamp = _LAST_SECONDS\n",
+      _R, "the remembered key is stored before the parse that can raise, the remembered seconds after it (seed C16-z)")
